@@ -32,6 +32,20 @@ def _code_key(code):
     consts = tuple(_code_key(c) if hasattr(c, 'co_code') else c for c in code.co_consts)
     return (code.co_code, consts, code.co_names)
 
+def _lambda_key(f):
+    '''What identifies a lambda: its code and, if it has any, its default
+    arguments and the values of the variables it captured'''
+    key = ('<lambda>', _code_key(f.__code__))
+    closure = []
+    for cell in (f.__closure__ or ()):
+        try:
+            closure.append(cell.cell_contents)
+        except ValueError:
+            closure.append(None)
+    if f.__defaults__ is None and f.__kwdefaults__ is None and not closure:
+        return key
+    return key + ((f.__defaults__, f.__kwdefaults__, tuple(closure)),)
+
 class _getitem:
     __slots__ = ('slice',)
     def __init__(self, slice):
@@ -456,7 +470,7 @@ class Tasklet(TaskletMixin):
         M.update(b'Tasklet')
         hash_update(M, [
                 ('base', self.base),
-                ('f', self.f if getattr(self.f, '__name__', '') != '<lambda>' else ('<lambda>', _code_key(self.f.__code__)))
+                ('f', self.f if getattr(self.f, '__name__', '') != '<lambda>' else _lambda_key(self.f))
             ])
         return M.hexdigest().encode('utf-8')
 
